@@ -676,6 +676,19 @@ fn step(doc: &mut CoreDocument, pre: &Snapshot, op: &Op, at: &str, obs: &mut Obs
               format!("{at}: returned {r:?} but the document changed: {} -> {}", pre.text, post.text),
             )?;
           }
+          if let Ok(false) = r {
+            let explained = if attach {
+              pre.model.explains_attach_false(query, *rel)
+            } else {
+              pre.model.explains_detach_false(query, *rel)
+            };
+            if let Err(why) = explained {
+              obs.fail(
+                format!("{name}-false-wrong"),
+                format!("{at}: returned Ok(false); {why}; document {}", state(pre)),
+              )?;
+            }
+          }
         }
         Ok(true) => {
           obs.label(format!("{name}-true"));
